@@ -302,6 +302,14 @@ def run(ctx):
                 ctx.cap(f"{s['mode']}/{s['spectrum']}/{s['cloud']} {sch} w={w}: stopped after {n} schedules")
         for c, e, o, extra in v:
             ctx.violation(c, {"spec": s, "seed": seed, "extra": extra, "tier": tier}, e, o)
+    # a run with any of the diagnostic plots requested is the same run
+    from .. import pipeline
+
+    pv, pn = pipeline.judge_plots(["dashboard", "eas_optical_density", "eas_optical_histogram", "geom_beta_tr_hist", "spectra_histogram", "taus_density_beta", "taus_histogram", "taus_overview", "taus_pexit"], ("C",))
+    ctx.tick(pn, ("plots", pn > 0))
+    for c, e, o, k, nm in pv:
+        ctx.violation(c, {"kind": "pipeline", "spec": k, "plot": nm}, e, o)
+    ctx.cov["runs_with_a_plot_requested"] = pn
     # process-level histories: every sequence of preludes (other entry points / configurations / schedulers / user
     # settings) up to the depth of the tier, each in an interpreter of its own, followed by one fixed probe
     from .. import prochist
@@ -335,6 +343,10 @@ def run(ctx):
 
 
 def replay(case):
+    if case.get("kind") == "pipeline":
+        from .. import pipeline
+
+        return pipeline.replay(case)
     if case.get("kind") == "prochist":
         from .. import prochist
 
